@@ -102,7 +102,7 @@ class LineReader(Iterable):
         self.pagexml_line_files = []
         self.line_file_headers = line_file_headers
         if line_file_headers is not None:
-            self.has_header = False
+            self.has_headers = False
         else:
             self.has_headers = has_headers
         self.use_outer_textregions = use_outer_textregions
